@@ -376,6 +376,15 @@ fn muller_case(rng: &mut Rng, rep: &mut Report) {
         if pts.len() < 3 {
             return;
         }
+        // complex type, one case in six: the last two points on one vertical line (equal real parts, imaginary
+        // parts at least 0.1 rho apart) - D43: the third point's imaginary part was read from the second
+        if !real && (pts[0].re.to_bits() >> 7) % 6 == 0 {
+            let z = C::new(pts[1].re, pts[2].im);
+            if (z - pts[1]).norm() >= 0.1 * rho && (z - pts[0]).norm() >= 0.1 * rho && (z - p.roots[k]).norm() >= 0.2 * rho {
+                pts[2] = z;
+                rep.count("muller_polynomial/near/last_two_points_on_a_vertical_line", 1);
+            }
+        }
     } else {
         while pts.len() < 3 {
             let z = if real { C::new(rng.r(-DISC, DISC), 0.0) } else { C::from_polar(DISC * rng.f().sqrt(), rng.r(0.0, std::f64::consts::TAU)) };
@@ -530,6 +539,7 @@ pub fn thresholds(ctx: &Ctx, rep: &Report) -> Vec<Threshold> {
     }
     t.push(Threshold { what: "newton_polynomial: exhausted caps (Err expected)".into(), required: q(1_000.0, 25_000.0), observed: rep.counter("newton_polynomial/err_expected/exhausted-cap") as f64 });
     let ok = rep.counter("muller_polynomial/near/ok_results") as f64;
+    t.push(Threshold { what: "muller_polynomial: complex triples near a root whose last two points share their real part".into(), required: q(800.0, 7_000.0), observed: rep.counter("muller_polynomial/near/last_two_points_on_a_vertical_line") as f64 });
     t.push(Threshold { what: "muller_polynomial: symmetric start triples on even quadratics".into(), required: q(2_500.0, 20_000.0), observed: rep.counter("muller_polynomial/symmetric_triples_on_even_quadratics") as f64 });
     t.push(Threshold { what: "muller_polynomial: Ok results judged (points near a root)".into(), required: q(8_000.0, 200_000.0), observed: ok });
     t.push(Threshold { what: "muller_polynomial: runs from three arbitrary points (panic / non-finite only)".into(), required: q(3_000.0, 80_000.0), observed: (rep.counter("muller_polynomial/wide/ok_results") + rep.counter("muller_polynomial/wide/err_results")) as f64 });
